@@ -8,6 +8,7 @@ EXPLANATION = (
     "or replaced by a checked conversion; and every integer accumulation in i64 uses checked arithmetic (no raw `+` on i64 operands). "
     "count / min / max / collect values and grouping are runtime-value behaviour and are not decided."
     " C21.3: every evaluation of the aggregated expression in execute_aggregate and its closures is null-tested (variant match, comparison with Value::Null, or the filter adaptor fed by the mapping closure) before it is folded."
+    " C21.4: every DISTINCT aggregate arm decides duplicates with a value-equality membership scan, never with dedup* / the ordering comparator."
 )
 
 PREFIX = "nervusdb_query::executor::projection_sort::"
